@@ -179,6 +179,58 @@ def register_dominance(R):
                    note='order of operations in one iteration of the key loop: adoption of a key the older mapping lacks is dominated by the new-path check; callee preconditions and run-time type safety are NOT obligations of this instance (they belong to the functional contracts)'))
 
 
+def register_nearest(R):
+    """ComposedNode.ayns.get_first_not_missing_node (C04/C05): the counterpart an older entry is compared with is the DEEPEST existing
+    node along its (relative) path in the newer tree - relative to an assumed contract of the path walk get_node(intermediate=True,
+    incomplete=True): the receiver, then the nodes reached component by component, ending with None at the first missing one."""
+    from pyvc.values import TupleV
+    Along = z3.Function('NodeAlong', sym.I, sym.PathSort, sym.I, Val)       # ghost: node reached after j components (none when missing)
+    WalkN = z3.Function('NodesAlongLen', sym.I, sym.PathSort, sym.I)        # ghost: number of entries the walk returns
+
+    def path_of(c):
+        p = c.a['path']
+        return p.s if isinstance(p, PathV) else p.items[0].s
+
+    def walk_result(c, it):
+        r = it.run.alloc('list')
+        j = z3.Int('!aj')
+        s, p = c.ref('self'), path_of(c)
+        n = WalkN(s, p)
+        it.heap.put_l(r, sym.ListT(n, z3.Lambda([j], Along(s, p, j))))
+        it.run.assume(z3.And(n >= 1, n <= z3.Length(p) + 1, Along(s, p, 0) == c['self'],
+                             z3.ForAll([j], z3.Implies(z3.And(0 <= j, j < n - 1), z3.And(is_ref(Along(s, p, j)), r_of(Along(s, p, j)) > 0))),
+                             z3.Or(is_none(Along(s, p, n - 1)), z3.And(is_ref(Along(s, p, n - 1)), r_of(Along(s, p, n - 1)) > 0)),
+                             z3.Implies(is_none(Along(s, p, n - 1)), n >= 2)))
+        return SV(sym.mk_ref(r), hint=frozenset(['list']))
+
+    def mode(c):
+        out = []
+        for nm, want in (('intermediate', True), ('incomplete', True), ('names', False)):
+            v = c.a.get(nm)
+            out.append((f'walk-called-with-{nm}={want}', z3.BoolVal(False) if not isinstance(v, SV) else sym.truthy_prim(v.t) == z3.BoolVal(want)))
+        return out
+    R.add(Contract(C + 'ComposedNode.ayns.get_node', [P.node('self', 'ComposedNode'), P.path('path')], name='walk-with-first-missing', assume_only=True, pure=True,
+                   requires=mode, result=walk_result, props=('C04', 'C05'), opts={'callee': False},
+                   note='get_node(path, intermediate=True, incomplete=True): the nodes along the path starting with the receiver; if a component is missing the list '
+                        'ends with None in its place (path walking with callbacks: ASSUMED, covered by the bounded walk/lookup stand-in)'))
+
+    def nearest(c):
+        s, p = c.ref('self'), path_of(c)
+        n = WalkN(s, p)
+        return z3.If(is_none(Along(s, p, n - 1)), Along(s, p, n - 2), Along(s, p, n - 1))
+
+    def setup(it, fr, sc):
+        fr.loc['path'] = TupleV([it.spec_args['path']])
+
+    R.add(Contract(GFN, [P.node('self', 'ComposedNode'), P.path('path')], name='deepest-existing',
+                   pure=True, ensures=[('C04+C05.counterpart-is-the-deepest-existing-node-along-the-path', lambda c: c.rt == nearest(c)),
+                                       ('result-is-a-node', lambda c: z3.And(is_ref(c.rt), r_of(c.rt) > 0))],
+                   result=P.val('result', 'any'), props=('C04', 'C05'),
+                   opts={'setup': setup, 'bind_partial': True, 'verify_only': True, 'no_search': True, 'asserts_are_checks': True,
+                         'use': {C + 'ComposedNode.ayns.get_node': 'walk-with-first-missing'}},
+                   note='the abstract function Nearest used by the pruning predicates is this: last non-missing entry of the walk'))
+
+
 def register_traversals(R):
     """ComposedNode.on_preprocess_impl / on_premerge_impl (C16, C06): one-line wrappers of the generic traversal map_nodes; what is
     decided is the CALL CONVENTION - the traversal visits the children of the receiver (no recursion of its own: every child's own hook
@@ -215,4 +267,5 @@ def register_traversals(R):
 def _reg_all(R):
     register(R)
     register_dominance(R)
+    register_nearest(R)
     register_traversals(R)
